@@ -26,11 +26,17 @@ import (
 
 	corev1 "k8s.io/api/core/v1"
 	storagev1 "k8s.io/api/storage/v1"
+	"k8s.io/apimachinery/pkg/api/resource"
 	metav1 "k8s.io/apimachinery/pkg/apis/meta/v1"
+	"sigs.k8s.io/controller-runtime/pkg/reconcile"
 
 	autoscalingv1beta1 "sigs.k8s.io/karpenter/pkg/apis/autoscaling/v1beta1"
 	v1 "sigs.k8s.io/karpenter/pkg/apis/v1"
+	"sigs.k8s.io/karpenter/pkg/apis/v1alpha1"
+	"sigs.k8s.io/karpenter/pkg/cloudprovider"
+	"sigs.k8s.io/karpenter/pkg/cloudprovider/overlay"
 	kdisruption "sigs.k8s.io/karpenter/pkg/controllers/disruption"
+	"sigs.k8s.io/karpenter/pkg/controllers/nodeoverlay"
 	pscheduling "sigs.k8s.io/karpenter/pkg/controllers/provisioning/scheduling"
 	"sigs.k8s.io/karpenter/pkg/state/virtualpods"
 
@@ -39,6 +45,9 @@ import (
 )
 
 type frameSt struct {
+	cp    cloudprovider.CloudProvider // what every component is handed: w.Prov, or w.Prov behind the NodeOverlay decorator
+	ovl   *nodeoverlay.Controller
+	store *nodeoverlay.InstanceTypeStore
 	cands []*kdisruption.Candidate
 	n     int
 	mode  string // context mode of the current Method step: "" | cancelled | deadline
@@ -200,9 +209,14 @@ func (s *sim) runSimulate(st Step) error {
 			want[n] = true
 		}
 	}
-	all, err := kdisruption.GetCandidates(s.dctx(), s.cluster, s.w.Client, s.w.Rec, s.w.Clock, s.w.Prov,
+	// the candidate discovery is part of the bracket of the first simulation (it resolves every pool's instance types through the
+	// cloud provider, like the discovery of a method does); the candidates join the frame once they are known (rebase)
+	s.frameSetCands(nil)
+	s.frameSnap("pre", "simulate")
+	all, err := kdisruption.GetCandidates(s.dctx(), s.cluster, s.w.Client, s.w.Rec, s.w.Clock, s.frameProvider(),
 		func(context.Context, *kdisruption.Candidate) bool { return true }, kdisruption.GracefulDisruptionClass, s.queue)
 	if err != nil {
+		s.frameSnap("post", "simulate")
 		s.w.Emit(trace.M{"e": "Note", "what": "simulate-candidates-error", "kind": "-", "name": "-", "msg": short(err.Error())})
 		return nil
 	}
@@ -230,7 +244,11 @@ func (s *sim) runSimulate(st Step) error {
 			left := st.D
 			ctx = pollCtx{Context: ctx, left: &left}
 		}
-		s.frameSnap("pre", "simulate")
+		if r == 0 {
+			s.frameSnap("rebase", "simulate")
+		} else {
+			s.frameSnap("pre", "simulate")
+		}
 		s.w.Emit(trace.M{"e": "Begin", "controller": "disruption.simulate", "object": orDashS(st.Value)})
 		var res pscheduling.Results
 		errS, panicked := s.guarded(nil, func() error {
@@ -305,6 +323,7 @@ func (s *sim) runPass() error {
 //	spreadZone=<app>        ScheduleAnyway zonal topology spread over pods labelled app=<app>
 //	badSelector=<x>         nodeSelector on a restricted karpenter.sh label (an invalid pending pod)
 //	pvc=<claim>             mounts PersistentVolumeClaim <claim> (objects created by frameBuildStorage)
+//	widgets=<n>             requests n example.com/widgets (an extended resource only a capacity NodeOverlay provides)
 func (s *sim) frameDecoratePod(pod *corev1.Pod, p *PodSpec) {
 	for k, v := range p.Ext {
 		switch k {
@@ -347,8 +366,11 @@ func (s *sim) frameDecoratePod(pod *corev1.Pod, p *PodSpec) {
 			terms := []corev1.WeightedPodAffinityTerm{
 				{Weight: 1, PodAffinityTerm: corev1.PodAffinityTerm{TopologyKey: corev1.LabelTopologyZone, LabelSelector: &metav1.LabelSelector{MatchLabels: map[string]string{"app": v}}}},
 				{Weight: 7, PodAffinityTerm: corev1.PodAffinityTerm{TopologyKey: corev1.LabelHostname, LabelSelector: &metav1.LabelSelector{MatchLabels: map[string]string{"app": v}}}}}
-			if k == "prefAntiAffinity" {
-				pod.Spec.Affinity.PodAntiAffinity = &corev1.PodAntiAffinity{PreferredDuringSchedulingIgnoredDuringExecution: terms}
+			if k == "prefAntiAffinity" { // (merged with a required term of the same pod: the Ext map is visited in no particular order)
+				if pod.Spec.Affinity.PodAntiAffinity == nil {
+					pod.Spec.Affinity.PodAntiAffinity = &corev1.PodAntiAffinity{}
+				}
+				pod.Spec.Affinity.PodAntiAffinity.PreferredDuringSchedulingIgnoredDuringExecution = terms
 			} else {
 				pod.Spec.Affinity.PodAffinity = &corev1.PodAffinity{PreferredDuringSchedulingIgnoredDuringExecution: terms}
 			}
@@ -366,8 +388,11 @@ func (s *sim) frameDecoratePod(pod *corev1.Pod, p *PodSpec) {
 			if pod.Spec.Affinity == nil {
 				pod.Spec.Affinity = &corev1.Affinity{}
 			}
-			pod.Spec.Affinity.PodAntiAffinity = &corev1.PodAntiAffinity{RequiredDuringSchedulingIgnoredDuringExecution: []corev1.PodAffinityTerm{{
-				TopologyKey: corev1.LabelHostname, LabelSelector: &metav1.LabelSelector{MatchLabels: map[string]string{"app": v}}}}}
+			if pod.Spec.Affinity.PodAntiAffinity == nil {
+				pod.Spec.Affinity.PodAntiAffinity = &corev1.PodAntiAffinity{}
+			}
+			pod.Spec.Affinity.PodAntiAffinity.RequiredDuringSchedulingIgnoredDuringExecution = []corev1.PodAffinityTerm{{
+				TopologyKey: corev1.LabelHostname, LabelSelector: &metav1.LabelSelector{MatchLabels: map[string]string{"app": v}}}}
 		case "spreadZone":
 			pod.Spec.TopologySpreadConstraints = append(pod.Spec.TopologySpreadConstraints, corev1.TopologySpreadConstraint{MaxSkew: 1,
 				TopologyKey: corev1.LabelTopologyZone, WhenUnsatisfiable: corev1.ScheduleAnyway, LabelSelector: &metav1.LabelSelector{MatchLabels: map[string]string{"app": v}}})
@@ -376,6 +401,9 @@ func (s *sim) frameDecoratePod(pod *corev1.Pod, p *PodSpec) {
 				pod.Spec.NodeSelector = map[string]string{}
 			}
 			pod.Spec.NodeSelector["karpenter.sh/custom-"+v] = v
+		case "widgets": // requests <v> of the extended resource example.com/widgets (only a capacity NodeOverlay provides it)
+			pod.Spec.Containers[0].Resources.Requests[WidgetResource] = resource.MustParse(v)
+			pod.Spec.Containers[0].Resources.Limits = corev1.ResourceList{WidgetResource: resource.MustParse(v)}
 		case "pvc":
 			pod.Spec.Volumes = append(pod.Spec.Volumes, corev1.Volume{Name: "v-" + v, VolumeSource: corev1.VolumeSource{
 				PersistentVolumeClaim: &corev1.PersistentVolumeClaimVolumeSource{ClaimName: v}}})
@@ -450,5 +478,125 @@ func (s *sim) runCapacityBuffer(st Step) error {
 	if vc := s.virtualCache(); vc != nil { // what the capacity-buffer controller does on a buffer event
 		vc.UpdateEntry(cb, corev1.PodTemplateSpec{ObjectMeta: metav1.ObjectMeta{Labels: pod.Labels}, Spec: pod.Spec})
 	}
+	return nil
+}
+
+// ---------------------------------------------------------------- NodeOverlay (feature gate NodeOverlay)
+//
+// Wired as in the operator (kwok/main.go, controllers.NewControllers): cluster state, provisioner, disruption controller, methods
+// and informers get overlay.Decorate(provider, client, store); the nodeoverlay controller gets the UNDECORATED provider and swaps a
+// freshly evaluated store in on every reconcile.  The snapshot's catalog section digests the harness provider's OWN instance types
+// (world.Provider.Types / TypesForPool), never the decorator's copies.
+
+const WidgetResource = corev1.ResourceName("example.com/widgets")
+
+// frameNewProvider (restart): a fresh store + decorator when the feature gate is on.
+func (s *sim) frameNewProvider() cloudprovider.CloudProvider {
+	st := s.frame()
+	st.cp, st.ovl, st.store = s.w.Prov, nil, nil
+	if s.sc.Options.NodeOverlay {
+		st.store = nodeoverlay.NewInstanceTypeStore()
+		st.cp = overlay.Decorate(s.w.Prov, s.w.Client, st.store)
+	}
+	return st.cp
+}
+
+func (s *sim) frameProvider() cloudprovider.CloudProvider {
+	if cp := s.frame().cp; cp != nil {
+		return cp
+	}
+	return s.w.Prov
+}
+
+func (s *sim) frameOverlayController() {
+	if st := s.frame(); st.store != nil {
+		st.ovl = nodeoverlay.NewController(s.w.Clock, s.w.Client, s.w.Prov, st.store, s.cluster)
+	}
+}
+
+// frameReconcileOverlays = the nodeoverlay controller's reconcile (it evaluates ALL overlays against ALL pools whatever the request).
+func (s *sim) frameReconcileOverlays() {
+	st := s.frame()
+	if st.ovl == nil {
+		return
+	}
+	ctx := world.WithActor(s.ctx, "nodeoverlay")
+	for i := 0; i < 5; i++ { // a status patch that conflicts asks for a requeue
+		res, err := st.ovl.Reconcile(ctx, reconcile.Request{})
+		if err != nil {
+			s.w.Emit(trace.M{"e": "Note", "what": "nodeoverlay-error", "kind": "-", "name": "-", "msg": short(err.Error())})
+		}
+		if !res.Requeue { //nolint:staticcheck
+			return
+		}
+	}
+	panic("nodeoverlay controller keeps requeueing: the instance type store is never updated")
+}
+
+func frameLabelKey(k string) string {
+	switch k {
+	case "hostname":
+		return corev1.LabelHostname
+	case "zone":
+		return corev1.LabelTopologyZone
+	case "arch":
+		return corev1.LabelArchStable
+	case "os":
+		return corev1.LabelOSStable
+	case "ct":
+		return v1.CapacityTypeLabelKey
+	case "type":
+		return corev1.LabelInstanceTypeStable
+	}
+	return k
+}
+
+func (s *sim) mkOverlay(o *OverlaySpec) *v1alpha1.NodeOverlay {
+	ov := &v1alpha1.NodeOverlay{ObjectMeta: metav1.ObjectMeta{Name: o.Name}}
+	ov.Spec.Requirements = []v1alpha1.NodeSelectorRequirement{}
+	for _, r := range o.Requirements {
+		ov.Spec.Requirements = append(ov.Spec.Requirements, v1alpha1.NodeSelectorRequirement{Key: r.Key, Operator: corev1.NodeSelectorOperator(r.Op), Values: r.Values})
+	}
+	if o.Weight > 0 {
+		w := int32(o.Weight)
+		ov.Spec.Weight = &w
+	}
+	if o.Price != "" {
+		p := o.Price
+		ov.Spec.Price = &p
+	}
+	if o.PriceAdjustment != "" {
+		p := o.PriceAdjustment
+		ov.Spec.PriceAdjustment = &p
+	}
+	if len(o.Capacity) > 0 {
+		ov.Spec.Capacity = corev1.ResourceList{}
+		for k, v := range o.Capacity {
+			ov.Spec.Capacity[corev1.ResourceName(k)] = resource.MustParse(v)
+		}
+	}
+	return ov
+}
+
+// runOverlay: SetOverlay{overlay} / DeleteOverlay{value}, then what the watch triggers.
+func (s *sim) runOverlay(st Step) error {
+	if !s.sc.Options.NodeOverlay {
+		return fmt.Errorf("%s needs options.nodeOverlay", st.A)
+	}
+	if st.A == "DeleteOverlay" {
+		s.w.EnvRemove(&v1alpha1.NodeOverlay{ObjectMeta: metav1.ObjectMeta{Name: st.Value}}, "OverlayGone")
+	} else {
+		if st.Overlay == nil {
+			return fmt.Errorf("SetOverlay without overlay")
+		}
+		ov := s.mkOverlay(st.Overlay)
+		cur := &v1alpha1.NodeOverlay{ObjectMeta: metav1.ObjectMeta{Name: ov.Name}}
+		if s.w.Get(cur) {
+			s.w.EnvMutate(cur, "SetOverlay", func() { cur.Spec = ov.Spec; cur.Generation++ })
+		} else {
+			s.w.EnvCreate(ov)
+		}
+	}
+	s.frameReconcileOverlays()
 	return nil
 }
